@@ -78,6 +78,9 @@ SCENARIOS = {
                                   behaviour={1: ('close',)}, refuse=2, callbacks=2, horizon=40),
     'bytes_wait_before': dict(bytes=True, callers=[[('comm', 1), ('comm', 2)], [('comm', 3)]], wait_before=0.3,
                               behaviour={2: ('late', 2.2)}),
+    # variable-length replies fetched in getFullReply (inside the transaction), arriving in pieces
+    'bytes_varlen': dict(bytes=True, varlen=True, callers=[[('comm', 1), ('comm', 2)], [('comm', 3), M((4, 0), (5, 0))], [('comm', 6)]],
+                         behaviour={1: ('normal', 2), 3: ('normal', 3), 4: ('normal', 2), 6: ('normal', 2)}),
     # identification exchange on connect; wrong answers make the attempt fail
     'ident_reconnect': dict(ident=True, callers=[[('comm', 1), ('sleep', 4), ('comm', 2), ('sleep', 4), ('comm', 3)],
                                                  [('sleep', 0.2), ('comm', 4), ('sleep', 5), ('comm', 5)]],
